@@ -175,8 +175,11 @@ func (p *Parser) GenerateBaseCode() (code string, err error) {
 		}
 
 		// Insert markers.
-		util.InsertComment(p.file, entry.marker, minPos)
+		// The closing marker goes in first: a marker is longer than a short interface
+		// body, and InsertComment would merge a later insertion that falls inside the
+		// span of the opening marker into the same comment group.
 		util.InsertComment(p.file, entry.marker, maxPos)
+		util.InsertComment(p.file, entry.marker, minPos)
 	}
 
 	var buf bytes.Buffer
